@@ -87,6 +87,8 @@ def _case(draw, tier, shard):
         outlier_prior=draw(st.sampled_from([0.05, 0.3, 0.01])) if out else 0.0,
         wiring="run" if kind == "sweep" else draw(st.sampled_from(["library", "run"])),
         s=draw(st.sampled_from([0.5, 0.0, 1.0, 0.25])),
+        prev_alpha=draw(st.sampled_from([None, 4.0, None, 0.25])),
+        warm_at=draw(st.integers(0, 500)),
         sib=draw(st.lists(st.integers(0, 7), min_size=1, max_size=3)),
     )
 
@@ -148,6 +150,11 @@ def evaluate(case):
             keys, mts, trees = exact.state_space(world, n, out, sib=case.get("sib"))
             pi, lp = exact.target(world, trees)
             rng = world["rng"]
+            if kind in ("dp", "prg", "subtree-full") and case.get("prev_alpha") is not None:
+                mv = samplers["sub" if kind == "subtree-full" else kind].sample_tree
+                exact.warm_history(world, case, [mv], [trees[(case.get("warm_at", 0) + 7 * j) % len(trees)] for j in range(max(1, len(trees) // 8))], leaf_budget=20000)
+                pi, lp = exact.target(world, trees)
+                classes.append("alpha-changed-in-place-before")
             if kind in ("dp", "prg"):
                 comp = "%s/%s" % (kind, "outliers" if out else "no-outliers")
                 K, leaves = exact.transition_matrix(samplers[kind].sample_tree, keys, trees, rng, comp, tags, budget_)
@@ -286,6 +293,8 @@ def shrink_candidates(case):
         yield dict(c, alpha=1.0)
     if c["values"]["regime"] != "ties":
         yield dict(c, values=dict(c["values"], regime="ties"))
+    if c.get("prev_alpha") is not None:
+        yield dict(c, prev_alpha=None)
     if c.get("wiring") == "run" and c["kind"] != "sweep":
         yield dict(c, wiring="library")
     if c.get("outlier_prior", 0) not in (0.0, 0.3):
